@@ -13,6 +13,8 @@ import (
 	"sort"
 	"time"
 
+	"go.nanomsg.org/mangos/v3"
+
 	"verifharness/vp"
 )
 
@@ -108,7 +110,16 @@ func main() {
 	c := &Ctx{Tier: *tier, Seed: *seed, Out: *out, R: vp.NewRand(*seed), T: t, Replay: *replay,
 		Rep: &Report{Property: prop, Tier: *tier, Seed: *seed, Classes: map[string]int{}}}
 	start := time.Now()
+	switch prop {
+	case "C01", "C02", "C03", "C04", "C05", "C06", "C07", "C08", "C09":
+		// the delivery properties are about message contents: their scenarios run under the reference-count ledger
+		mangos.VerifLedgerEnable(true)
+		ledgerAll = true
+	}
 	f(c)
+	if ledgerAll {
+		ledgerCheckAs(c, "end of run", nil, "the library released or touched a message it no longer held")
+	}
 	c.Rep.WallS = time.Since(start).Seconds()
 	_ = t.Close()
 	n := 0
